@@ -5,6 +5,10 @@ with the change and passes without.  Kept changes go to /verif/seeded/<ID>/<name
 usage: admit.py <ID> [--remove]   (--remove: remove the scratch worktree afterwards)"""
 import json, os, shutil, subprocess, sys
 pid = sys.argv[1]
+prefix = ''
+for a in sys.argv[2:]:
+    if a.startswith('--prefix='):
+        prefix = a.split('=', 1)[1]
 WT = '/tmp/wt/' + pid
 MUT = WT + '/MUTANT'
 def sh(cmd):
@@ -38,7 +42,7 @@ for name in ('a', 'b', 'c'):
     print(pid, name, 'KEPT' if ok else 'REJECTED', dict(passes_without=passes_without, suite_ok=suite_ok, fails_with=fails_with))
     if not ok:
         print(out0[-400:], out1[-300:], out2[-400:]); continue
-    dst = '/verif/seeded/%s/%s' % (pid, name)
+    dst = '/verif/seeded/%s/%s%s' % (pid, prefix, name)
     os.makedirs(dst, exist_ok=True)
     shutil.copy(diff, dst + '/patch.diff')
     shutil.copy(demo, dst + '/demo.rs')
